@@ -1,4 +1,5 @@
 //! C02 — basic D-set queries in every representation.
+use rust_dsymbols::derived::{as_dset, as_dsym, as_partial_dsym};
 use rust_dsymbols::dsets::{DSet, PartialDSet, Sign, SimpleDSet};
 use rust_dsymbols::dsyms::{collect_orbits, DSym, PartialDSym, SimpleDSym};
 use std::panic::{catch_unwind, AssertUnwindSafe};
@@ -13,15 +14,35 @@ fn q<F: FnOnce() -> Option<usize>>(f: F) -> i64 {
     }
 }
 
-fn tables_set<T: DSet>(ds: &T, size: usize, dim: usize, out: &mut Vec<i64>) {
-    for i in 0..=dim + 1 {
-        for d in 0..=size + 1 {
+/// the dense grid of the `tables` op: one out-of-range value on each side
+fn dense_grid(size: usize, dim: usize) -> (Vec<usize>, Vec<usize>) {
+    ((0..=dim + 1).collect(), (0..=size + 1).collect())
+}
+
+/// the sparse far grid of the `probe` op: indices 0..=dim+6, 1000, MAX-1, MAX (so that pairs of
+/// two bad indices that are equal, adjacent and far apart all occur, also at the top of the
+/// `usize` range) and chambers 0, 1, size, size+1, MAX (duplicates dropped, first occurrence kept)
+fn probe_grid(size: usize, dim: usize) -> (Vec<usize>, Vec<usize>) {
+    let mut is: Vec<usize> = (0..=dim + 6).collect();
+    is.extend([1000, usize::MAX - 1, usize::MAX]);
+    let mut ds: Vec<usize> = vec![];
+    for d in [0, 1, size, size + 1, usize::MAX] {
+        if !ds.contains(&d) {
+            ds.push(d);
+        }
+    }
+    (is, ds)
+}
+
+fn tables_set<T: DSet>(ds: &T, grid: &(Vec<usize>, Vec<usize>), out: &mut Vec<i64>) {
+    for &i in &grid.0 {
+        for &d in &grid.1 {
             out.push(q(|| ds.op(i, d)));
         }
     }
-    for i in 0..=dim + 1 {
-        for j in 0..=dim + 1 {
-            for d in 0..=size + 1 {
+    for &i in &grid.0 {
+        for &j in &grid.0 {
+            for &d in &grid.1 {
                 out.push(q(|| ds.r(i, j, d)));
                 out.push(q(|| ds.m(i, j, d)));
             }
@@ -29,15 +50,15 @@ fn tables_set<T: DSet>(ds: &T, size: usize, dim: usize, out: &mut Vec<i64>) {
     }
 }
 
-fn tables_sym<T: DSym>(ds: &T, size: usize, dim: usize, out: &mut Vec<i64>) {
-    for i in 0..=dim + 1 {
-        for d in 0..=size + 1 {
+fn tables_sym<T: DSym>(ds: &T, grid: &(Vec<usize>, Vec<usize>), out: &mut Vec<i64>) {
+    for &i in &grid.0 {
+        for &d in &grid.1 {
             out.push(q(|| ds.op(i, d)));
         }
     }
-    for i in 0..=dim + 1 {
-        for j in 0..=dim + 1 {
-            for d in 0..=size + 1 {
+    for &i in &grid.0 {
+        for &j in &grid.0 {
+            for &d in &grid.1 {
                 out.push(q(|| ds.r(i, j, d)));
                 out.push(q(|| ds.m(i, j, d)));
                 out.push(q(|| ds.v(i, j, d)));
@@ -46,32 +67,117 @@ fn tables_sym<T: DSym>(ds: &T, size: usize, dim: usize, out: &mut Vec<i64>) {
     }
 }
 
-/// mask: 1 = PartialDSet, 2 = SimpleDSet, 4 = PartialDSym, 8 = SimpleDSym
+/// mask: 1 = PartialDSet, 2 = SimpleDSet, 4 = PartialDSym, 8 = SimpleDSym,
+/// 16 = as_dset(&PartialDSym), 32 = as_dsym(&SimpleDSet) (branching numbers all 1: only asked on
+/// tables whose v is constant 1), 64 = as_partial_dsym(&PartialDSym)
+fn answer_tables(t: &Tab, mask: usize, grid: &(Vec<usize>, Vec<usize>)) -> String {
+    let mut out = vec![];
+    let pset: PartialDSet = t.to_partial_dset();
+    if mask & 1 != 0 {
+        tables_set(&pset, grid, &mut out);
+    }
+    if mask & 2 != 0 {
+        let sset: SimpleDSet = t.to_partial_dset().into();
+        tables_set(&sset, grid, &mut out);
+    }
+    if mask & 12 != 0 {
+        let psym: PartialDSym = t.to_partial_dsym();
+        if mask & 4 != 0 {
+            tables_sym(&psym, grid, &mut out);
+        }
+        if mask & 8 != 0 {
+            let ssym: SimpleDSym = psym.into();
+            tables_sym(&ssym, grid, &mut out);
+        }
+    }
+    if mask & 16 != 0 {
+        let psym: PartialDSym = t.to_partial_dsym();
+        let copy: PartialDSet = as_dset(&psym);
+        tables_set(&copy, grid, &mut out);
+    }
+    if mask & 32 != 0 {
+        let sset: SimpleDSet = t.to_partial_dset().into();
+        let copy: PartialDSym = as_dsym(&sset);
+        tables_sym(&copy, grid, &mut out);
+    }
+    if mask & 64 != 0 {
+        let psym: PartialDSym = t.to_partial_dsym();
+        let copy: PartialDSym = as_partial_dsym(&psym);
+        tables_sym(&copy, grid, &mut out);
+    }
+    join(&out)
+}
+
 fn tables(ctx: &mut Ctx, t: &Tab, mask: usize, valid: bool, tag: &str) {
     ctx.case(
         "tables",
         tag,
         || format!("{} {} {}", mask, if valid { 1 } else { 0 }, t.enc()),
+        || answer_tables(t, mask, &dense_grid(t.size, t.dim)),
+    );
+}
+
+/// the same questions on the far grid (see `probe_grid`)
+fn probe(ctx: &mut Ctx, t: &Tab, mask: usize, valid: bool, tag: &str) {
+    ctx.case(
+        "probe",
+        tag,
+        || format!("{} {} {}", mask, if valid { 1 } else { 0 }, t.enc()),
+        || answer_tables(t, mask, &probe_grid(t.size, t.dim)),
+    );
+}
+
+/// the table with all branching numbers 1 (what `as_dsym` builds)
+fn with_v1(t: &Tab) -> Tab {
+    let mut s = t.clone();
+    for i in 0..s.dim {
+        for d in 1..=s.size {
+            s.v[i][d] = 1;
+        }
+    }
+    s
+}
+
+/// all representations and conversion copies, dense and far grid.  On sets whose far operations do
+/// not commute the table-based `r` of the symbol types is not the orbit length for |i-j| > 1
+/// (DESIGN §5.2), so there the plain and the symbol representations are asked in separate cases.
+fn copies_and_probes(ctx: &mut Ctx, s: &Tab, valid: bool, tag: &str) {
+    let s1 = with_v1(s);
+    if valid {
+        // conversion copies against the PartialDSym they were made from
+        tables(ctx, s, 4 | 16 | 64, valid, tag);
+        probe(ctx, s, 1 | 2 | 4 | 8 | 16 | 64, valid, tag);
+    } else {
+        tables(ctx, s, 1 | 16, valid, tag);
+        tables(ctx, s, 4 | 64, valid, tag);
+        probe(ctx, s, 1 | 2 | 16, valid, tag);
+        probe(ctx, s, 4 | 8 | 64, valid, tag);
+    }
+    tables(ctx, &s1, 4 | 32, valid, tag);
+    probe(ctx, &s1, 4 | 32, valid, tag);
+}
+
+/// `set_count` / `symbol_count` of the four types: the counters given at construction
+fn counts(ctx: &mut Ctx, t: &Tab, c: usize, k: usize, tag: &str) {
+    ctx.case(
+        "counts",
+        tag,
+        || format!("{} {} {}", c, k, t.enc()),
         || {
-            let mut out = vec![];
-            let pset: PartialDSet = t.to_partial_dset();
-            if mask & 1 != 0 {
-                tables_set(&pset, t.size, t.dim, &mut out);
-            }
-            if mask & 2 != 0 {
-                let sset: SimpleDSet = t.to_partial_dset().into();
-                tables_set(&sset, t.size, t.dim, &mut out);
-            }
-            if mask & 12 != 0 {
-                let psym: PartialDSym = t.to_partial_dsym();
-                if mask & 4 != 0 {
-                    tables_sym(&psym, t.size, t.dim, &mut out);
-                }
-                if mask & 8 != 0 {
-                    let ssym: SimpleDSym = psym.into();
-                    tables_sym(&ssym, t.size, t.dim, &mut out);
+            let pset = t.to_partial_dset();
+            let sset = SimpleDSet::from_partial(t.to_partial_dset(), c);
+            let mut psym: PartialDSym = SimpleDSet::from_partial(t.to_partial_dset(), c).into();
+            for i in 0..t.dim {
+                for d in 1..=t.size {
+                    psym.set_v(i, d, t.v[i][d]);
                 }
             }
+            let out = vec![pset.set_count(), pset.symbol_count(), sset.set_count(), sset.symbol_count(),
+                           psym.set_count(), psym.symbol_count()];
+            let ssym = SimpleDSym::from_partial(psym, k);
+            let mut out = out;
+            out.push(ssym.set_count());
+            out.push(ssym.symbol_count());
             join(&out)
         },
     );
@@ -204,6 +310,8 @@ fn main() {
     let mut ctx = Ctx::from_args();
     let th = ctx.thorough();
     let mut rng = ctx.rng(2);
+    // separate stream for the sampling of the copy / far-grid cases (keeps the older universe fixed)
+    let mut rng3 = ctx.rng(3);
     let _ = with_rep::<()>;
 
     // regression: D2 — SimpleDSym::r/v(0, j >= 2, d) underflowed `i - 1`
@@ -211,6 +319,17 @@ fn main() {
         let mut t = dsets(2, 1, true, true, false).remove(0);
         t = all_vs(&t, &[3]).remove(0);
         tables(&mut ctx, &t, 15, true, "nt regress dim=2");
+    }
+    // regression: seeded change C02-m7 — table-based r(i, j, d) with BOTH indices out of range and
+    // |i - j| >= 2 answered Some(1) (e.g. r(dim+1, dim+3, 1), r(usize::MAX, dim+1, 1))
+    {
+        let mut t = dsets(1, 1, true, true, false).remove(0);
+        t = all_vs(&t, &[1]).remove(0);
+        probe(&mut ctx, &t, 12, true, "nt regress probe dim=1");
+        let mut t = dsets(3, 2, true, true, false).remove(0);
+        t = all_vs(&t, &[2]).remove(0);
+        copies_and_probes(&mut ctx, &t, true, "nt regress probe dim=3");
+        counts(&mut ctx, &t, 7, 11, "nt regress counts");
     }
 
     // (1) valid D-symbols: commuting far operations, complete, all representations
@@ -226,6 +345,13 @@ fn main() {
                 let syms = if n <= 3 && dim <= 2 { all_vs(t, vals) } else { vec![random_vs(t, &mut rng, &[1, 2, 3, 4, 6])] };
                 for s in &syms {
                     tables(&mut ctx, s, 15, true, &tag);
+                }
+                // conversion copies (as_dset, as_dsym, as_partial_dsym) and the far grid of
+                // out-of-range arguments: every symbol up to 2 chambers, a sample beyond
+                if n <= 2 || rng3.chance(1, if th { 6 } else { 24 }) {
+                    let tagp = format!("nt copies+probe dim={} size={}", dim, n);
+                    copies_and_probes(&mut ctx, &syms[syms.len() - 1], true, &tagp);
+                    counts(&mut ctx, &syms[0], 1 + rng3.below(9), 1 + rng3.below(9), &tagp);
                 }
                 if !big || rng.chance(1, 8) {
                     graph_all_reps(&mut ctx, &syms[0], &mut rng, true, true, true, &tag);
@@ -246,6 +372,10 @@ fn main() {
                 tables(&mut ctx, &t, 3, false, &tag);
                 let s = random_vs(&t, &mut rng, &[1, 2, 3]);
                 tables(&mut ctx, &s, 12, false, &tag);
+                if rng3.chance(1, if th { 8 } else { 32 }) {
+                    let tagp = format!("nt noncommuting copies+probe dim={} size={}", dim, n);
+                    copies_and_probes(&mut ctx, &s, false, &tagp);
+                }
                 if rng.chance(1, 4) {
                     graph_all_reps(&mut ctx, &s, &mut rng, true, true, true, &tag);
                 }
@@ -261,7 +391,12 @@ fn main() {
                     continue;
                 }
                 let tag = format!("nt partial dim={} size={}", dim, n);
-                // generic r does not terminate/returns None on undefined entries: ask op/m only via graph ops
+                // the default `r` of PartialDSet on incomplete sets: the walk returns None when it
+                // meets an undefined image (and terminates: defined entries are involutive)
+                tables(&mut ctx, &t, 1, false, &tag);
+                if rng3.chance(1, if th { 8 } else { 32 }) {
+                    probe(&mut ctx, &t, 1, false, &format!("nt partial probe dim={} size={}", dim, n));
+                }
                 if rng.chance(1, if th { 4 } else { 10 }) {
                     graph_all_reps(&mut ctx, &t, &mut rng, false, false, false, &tag);
                 }
@@ -280,6 +415,9 @@ fn main() {
             let tag = format!("nt random dim={} size={}", dim, n.min(16));
             tables(&mut ctx, &s, 15, true, &tag);
             tables(&mut ctx, &s2, 15, true, &tag);
+            if k % (if th { 4 } else { 10 }) == 0 {
+                copies_and_probes(&mut ctx, &s2, true, &format!("nt random copies+probe dim={} size={}", dim, n.min(16)));
+            }
             graph_all_reps(&mut ctx, &s2, &mut rng, true, true, false, &tag);
         }
     }
